@@ -121,6 +121,7 @@ type Env struct {
 	Findings *Findings
 	Worker   bool
 	Shard    int
+	Out      string // where evidence/ and replay/ are written (Verif unless VERIF_OUT is set: seeded-change trials)
 }
 
 var registry = map[string]Prop{}
@@ -181,6 +182,7 @@ func Main() {
 		wit     = flag.Bool("witnesses", false, "internal: replay known-finding witnesses")
 		ncases  = flag.Int("n", 0, "override case count (exploration only; not used by MANIFEST)")
 		racebin = flag.String("racebin", "", "path of the -race build of vcheck")
+		build   = flag.String("build", "", "build/scratch directory (default <verif>/.build)")
 	)
 	flag.Parse()
 	p, ok := registry[*prop]
@@ -188,7 +190,13 @@ func Main() {
 		fmt.Fprintf(os.Stderr, "unknown property %q; have %v\n", *prop, PropIDs())
 		os.Exit(2)
 	}
-	env := &Env{Repo: *repo, Verif: *verif, Build: filepath.Join(*verif, ".build"), Tier: *tier, Seed: *seed, Worker: *worker, Shard: *shard}
+	env := &Env{Repo: *repo, Verif: *verif, Build: filepath.Join(*verif, ".build"), Tier: *tier, Seed: *seed, Worker: *worker, Shard: *shard, Out: *verif}
+	if o := os.Getenv("VERIF_OUT"); o != "" {
+		env.Out = o
+	}
+	if *build != "" {
+		env.Build = *build
+	}
 	f, err := LoadFindings(filepath.Join(*verif, "KNOWN_FINDINGS.json"))
 	if err != nil {
 		fmt.Fprintf(os.Stderr, "known findings: %v\n", err)
@@ -593,15 +601,15 @@ func supervise(p Prop, env *Env, override int, racebin string) int {
 	t0 := time.Now()
 	id := p.ID()
 	os.MkdirAll(env.Build, 0o755)
-	os.MkdirAll(filepath.Join(env.Verif, "evidence"), 0o755)
+	os.MkdirAll(filepath.Join(env.Out, "evidence"), 0o755)
 	bin := selfBin(p, env.Tier, racebin)
-	if old, _ := filepath.Glob(filepath.Join(env.Verif, "replay", id+"-*.json")); len(old) > 0 {
+	if old, _ := filepath.Glob(filepath.Join(env.Out, "replay", id+"-*.json")); len(old) > 0 {
 		for _, f := range old { // replay files of earlier runs of this property are stale
 			os.Remove(f)
 		}
 	}
 	a := newAgg()
-	base := []string{"-prop", id, "-tier", env.Tier, "-seed", fmt.Sprint(env.Seed), "-repo", env.Repo, "-verif", env.Verif, "-worker"}
+	base := []string{"-prop", id, "-tier", env.Tier, "-seed", fmt.Sprint(env.Seed), "-repo", env.Repo, "-verif", env.Verif, "-build", env.Build, "-worker"}
 	if override > 0 {
 		base = append(base, "-n", fmt.Sprint(override))
 	}
@@ -771,7 +779,7 @@ func supervise(p Prop, env *Env, override int, racebin string) int {
 	// replay files
 	var violLines []string
 	sort.Slice(a.viol, func(i, j int) bool { return a.viol[i].Idx < a.viol[j].Idx })
-	os.MkdirAll(filepath.Join(env.Verif, "replay"), 0o755)
+	os.MkdirAll(filepath.Join(env.Out, "replay"), 0o755)
 	classes := map[string]int{}
 	maxPerClass := 5
 	if k, err := strconv.Atoi(os.Getenv("VERIF_KEEP")); err == nil && k > 0 {
@@ -785,7 +793,7 @@ func supervise(p Prop, env *Env, override int, racebin string) int {
 		pb, _ := json.Marshal(v.Payload)
 		rf := replayFile{Property: id, Tier: env.Tier, Seed: env.Seed, Idx: v.Idx, Reason: v.Reason, Detail: v.Detail, Payload: pb}
 		b, _ := json.MarshalIndent(rf, "", " ")
-		path := filepath.Join(env.Verif, "replay", fmt.Sprintf("%s-%s.json", id, HashOf(pb, v.Reason)))
+		path := filepath.Join(env.Out, "replay", fmt.Sprintf("%s-%s.json", id, HashOf(pb, v.Reason)))
 		os.WriteFile(path, b, 0o644)
 		violLines = append(violLines, fmt.Sprintf("VIOLATION property=%s replay=%s", id, path))
 		if classes[v.Reason] <= 3 {
@@ -820,7 +828,7 @@ func supervise(p Prop, env *Env, override int, racebin string) int {
 		ev["inconclusive"] = broken
 	}
 	eb, _ := json.MarshalIndent(ev, "", " ")
-	evPath := filepath.Join(env.Verif, "evidence", id+".json")
+	evPath := filepath.Join(env.Out, "evidence", id+".json")
 	if err := os.WriteFile(evPath, append(eb, '\n'), 0o644); err != nil {
 		fmt.Fprintln(os.Stderr, "evidence:", err)
 		return 2
@@ -868,7 +876,7 @@ func superReplay(p Prop, env *Env, path, racebin string) int {
 		return 2
 	}
 	var got *Result
-	args := []string{"-prop", p.ID(), "-tier", rf.Tier, "-seed", fmt.Sprint(rf.Seed), "-repo", env.Repo, "-verif", env.Verif, "-worker", "-replay", path}
+	args := []string{"-prop", p.ID(), "-tier", rf.Tier, "-seed", fmt.Sprint(rf.Seed), "-repo", env.Repo, "-verif", env.Verif, "-build", env.Build, "-worker", "-replay", path}
 	done, _, stderr := runChild(bin, args, nil, func(r Result) { got = &r })
 	if got == nil {
 		if !done {
